@@ -143,7 +143,7 @@ fn fake_now() -> Instant {
     unsafe { core::mem::transmute::<TS, Instant>(TS { secs, nanos }) }
 }
 fn noop_machine() -> Machine {
-    Machine { allowed_padding_packets: 0, max_padding_frac: 0.0, allowed_blocked_microsec: 0, max_blocking_frac: 0.0, states: Vec::new() }
+    maybenot::verif::noop_machine()
 }
 fn is_canary(a: &MaybenotAction) -> bool {
     matches!(a, MaybenotAction::Cancel { machine: 0xDEAD, timer: MaybenotTimer::All })
@@ -157,33 +157,66 @@ fn kind_of(a: &MaybenotAction) -> u8 {
     }
 }
 
-fn on_events_body<const M: usize>() {
+fn any_event_type(k: u8) -> MaybenotEventType {
+    match k {
+        0 => MaybenotEventType::NormalRecv,
+        1 => MaybenotEventType::PaddingRecv,
+        2 => MaybenotEventType::TunnelRecv,
+        3 => MaybenotEventType::NormalSent,
+        4 => MaybenotEventType::PaddingSent,
+        5 => MaybenotEventType::TunnelSent,
+        6 => MaybenotEventType::BlockingBegin,
+        7 => MaybenotEventType::BlockingEnd,
+        8 => MaybenotEventType::TimerBegin,
+        _ => MaybenotEventType::TimerEnd,
+    }
+}
+
+/// `nev` events (0 or 1) of ANY of the ten types with ANY machine id
+fn on_events_body<const M: usize>(nev: usize, kind: u8, idcase: usize) {
     set_mode(MODE_ANY_ACTION);
     // the OS-seeded generator is never drawn from (the machine step is stubbed)
     let rng: Rng = unsafe { core::mem::zeroed() };
     let machines: Vec<Machine> = (0..M).map(|_| noop_machine()).collect();
     let framework = maybenot::verif::new_unchecked(machines, fake_now(), rng);
     let mut mf = MaybenotFramework { framework, events_buf: Vec::with_capacity(M) };
-    // one global event: every machine takes one step and may return any action
-    let ev = [MaybenotEvent { event_type: MaybenotEventType::TunnelRecv, machine: kani::any() }];
+    // case split (see DESIGN.md rule 8): global event types with any id, or the three addressed
+    // types with a concrete machine id / any id that names no machine (254)
+    let k: u8 = kind;
+    let id: usize = if idcase == 255 {
+        kani::any()
+    } else if idcase == 254 {
+        let x: usize = kani::any();
+        kani::assume(x >= M);
+        x
+    } else {
+        idcase
+    };
+    let ev = [MaybenotEvent { event_type: any_event_type(k), machine: id }];
     let canary = MaybenotAction::Cancel { machine: 0xDEAD, timer: MaybenotTimer::All };
     let mut out: [MaybeUninit<MaybenotAction>; 4] = [MaybeUninit::new(canary), MaybeUninit::new(canary), MaybeUninit::new(canary), MaybeUninit::new(canary)];
+    // the caller's count variable holds a stale value from an earlier call
     let mut n: usize = 77;
     assert!(unsafe { maybenot_num_machines(&mut mf) } == M, "C20: maybenot_num_machines is the number of machines");
-    let r = unsafe { maybenot_on_events(&mut mf, ev.as_ptr(), 1, out.as_mut_ptr().add(1), &mut n) };
+    let r = unsafe { maybenot_on_events(&mut mf, ev.as_ptr(), nev, out.as_mut_ptr().add(1), &mut n) };
     assert!(matches!(r, MaybenotResult::Ok), "C20: feeding events to a valid instance succeeds");
-    assert!(aa_calls() == M, "C20: every machine took exactly one step for the event");
+    // which machines the Rust framework steps for this event: global events (BlockingBegin included,
+    // whatever id it carries) reach every machine, addressed events only an existing machine
+    let addressed = k == 4 || k == 8 || k == 9;
+    let expect_steps = if nev == 0 { 0 } else if addressed { if id < M { 1 } else { 0 } } else { M };
+    assert!(aa_calls() == expect_steps, "C20: the events reach the framework exactly as the Rust API would deliver them (type and machine id unchanged, none dropped)");
     assert!(n <= M, "C20: the count written never exceeds maybenot_num_machines");
     let outs: [MaybenotAction; 4] = [unsafe { out[0].assume_init() }, unsafe { out[1].assume_init() }, unsafe { out[2].assume_init() }, unsafe { out[3].assume_init() }];
     assert!(is_canary(&outs[0]) && is_canary(&outs[M + 1]), "C20: nothing is written outside the num_machines output slots");
     // the actions, in machine order and field for field, are those the framework returned
-    let mut k = 0;
+    let mut k_out = 0;
     let mut mi = 0;
     while mi < M {
         let a = aa_last(mi);
-        if a.kind != 0 {
-            assert!(k < n, "C20: the count written equals the number of actions the framework returned");
-            let c = &outs[1 + k];
+        let stepped = nev == 1 && (if addressed { id == mi } else { true });
+        if stepped && a.kind != 0 {
+            assert!(k_out < n, "C20: the count written equals the number of actions the framework returned");
+            let c = &outs[1 + k_out];
             let to: Duration = aa_timeout();
             let du: Duration = aa_duration();
             let ok = match c {
@@ -203,27 +236,33 @@ fn on_events_body<const M: usize>() {
                 }
             };
             assert!(ok, "C20: the actions written are, in order and field for field, those the framework returns");
-            k += 1;
+            k_out += 1;
         }
         mi += 1;
     }
-    assert!(k == n, "C20: the count written equals the number of actions the framework returned");
+    assert!(k_out == n, "C20: the count written equals the number of actions the framework returned (also for an empty batch)");
     kani::cover!(n == M && M > 0, "every machine returned an action");
-    kani::cover!(n == 0, "no action returned");
+    kani::cover!(n == 0 && nev == 1, "no action returned for an event");
     core::mem::forget(mf);
 }
 
-#[kani::proof]
-#[kani::unwind(5)]
-#[kani::stub(std::time::Instant::now, fake_now)]
-#[kani::stub(maybenot::framework::Framework::transition, maybenot::verif::transition_any_action)]
-fn f_on_events_m1() {
-    on_events_body::<1>();
+macro_rules! on_events {
+    ($name:ident, $m:expr, $nev:expr, $kind:expr, $id:expr) => {
+        #[kani::proof]
+        #[kani::unwind(5)]
+        #[kani::stub(std::time::Instant::now, fake_now)]
+        #[kani::stub(maybenot::framework::Framework::transition, maybenot::verif::transition_any_action)]
+        fn $name() {
+            on_events_body::<$m>($nev, $kind, $id);
+        }
+    };
 }
-#[kani::proof]
-#[kani::unwind(5)]
-#[kani::stub(std::time::Instant::now, fake_now)]
-#[kani::stub(maybenot::framework::Framework::transition, maybenot::verif::transition_any_action)]
-fn f_on_events_m2() {
-    on_events_body::<2>();
-}
+// concrete event type per instance (a symbolic type makes the solver run out of memory)
+on_events!(f_on_events_m1, 1, 1, 2, 255);
+on_events!(f_on_events_m2, 2, 1, 2, 255);
+on_events!(f_on_events_m1_bb, 1, 1, 6, 255);
+on_events!(f_on_events_m2_bb, 2, 1, 6, 255);
+on_events!(f_on_events_m1_ps0, 1, 1, 4, 0);
+on_events!(f_on_events_m1_psu, 1, 1, 4, 254);
+on_events!(f_on_events_m1_te0, 1, 1, 9, 0);
+on_events!(f_on_events_empty, 1, 0, 2, 255);
